@@ -163,7 +163,7 @@ def check(ctx):
         raise AnchorMissing(f"{PL}:CommandPipeline.__init__: try around spec.run() not found")
     h = run_try.handlers[0]
     hsrc = ast.Module(body=h.body, type_ignores=[])
-    closes_rest = any(isinstance(s, ast.For) and isinstance(s.iter, ast.Subscript) and unparse(s.iter.value) == "specs" and any(last_attr(c) == "close" for c in calls_in(s, local=False)) for s in ast.walk(hsrc))
+    closes_rest = any(isinstance(s, ast.For) and unparse(s.iter) in ("specs", "specs[i:]", "self.specs", "self.specs[i:]") and any(call_name(c) == f"{unparse(s.target)}.close" for c in calls_in(s, local=False)) for s in ast.walk(hsrc))
     ctx.ob("R2", f"{PL}:CommandPipeline.__init__", "when a stage fails to start, the failing and the remaining specs are closed", closes_rest, key="pipeline-init|rest-not-closed", where=loc(h))
     rt = any(call_name(c) == "self._return_terminal" for c in calls_in(hsrc, local=False))
     ctx.ob("R2", f"{PL}:CommandPipeline.__init__", "when a stage fails to start, the terminal is returned to the shell", rt, key="pipeline-init|terminal-not-returned", where=loc(h))
